@@ -415,6 +415,9 @@ pub fn to_json(t: &Runtype) -> J {
         RuntypeKind::Any => json!("any"),
         RuntypeKind::Never => json!("never"),
         RuntypeKind::AnyArrayLike => json!("anyarray"),
+        RuntypeKind::BigInt => json!("bigint"),
+        RuntypeKind::Date => json!("date"),
+        RuntypeKind::TypedArray(k) => json!({"typed": crate::refmodel::typed_index(k)}),
         RuntypeKind::Const(RuntypeConst::Bool(b)) => json!({"bool": b}),
         RuntypeKind::Const(RuntypeConst::Number(n)) => json!({"num": n.to_f64()}),
         RuntypeKind::TplLitType(tpl) => match crate::refmodel::single_const(tpl) {
@@ -475,12 +478,17 @@ pub fn from_json(j: &J) -> Runtype {
             "string" => Runtype::string(),
             "any" => Runtype::any(),
             "anyarray" => Runtype::any_array_like(),
+            "bigint" => Runtype::new(RuntypeKind::BigInt),
+            "date" => Runtype::new(RuntypeKind::Date),
             _ => Runtype::never(),
         };
     }
     let o = j.as_object().expect("type json");
     if let Some(b) = o.get("bool") {
         return lit_b(b.as_bool().unwrap());
+    }
+    if let Some(k) = o.get("typed") {
+        return Runtype::typed_array(crate::refmodel::TYPED_KINDS[k.as_u64().unwrap() as usize]);
     }
     if let Some(n) = o.get("num") {
         return lit_n(n.as_f64().unwrap() as i64);
